@@ -456,6 +456,7 @@ type RealOut struct {
 	// oracles on the implementation alone
 	ArgsMutated string // the caller's argument slice was modified by Parse
 	ReparseDiff string // an option changed when an empty command line was parsed afterwards
+	TwiceDiff   string // a second Parse + Dispatch of the same arguments on the same object went elsewhere
 	// completion
 	ExitCodes []int
 	Stdout    string
@@ -527,6 +528,17 @@ func runRealInner(c *Case, out *RealOut) {
 		out.Calls = rp.calls
 		return
 	}
+	if c.PreEmpty {
+		// a first pass over an empty command line on the same object (two-phase parsing); when that pass
+		// fails (a required option of the program) the case continues on a fresh object instead
+		var w0 bytes.Buffer
+		getoptions.Writer = &w0
+		if _, e := root.Parse([]string{}); e != nil || w0.Len() > 0 {
+			rp, _ = buildReal(c)
+			root = rp.handles[0]
+		}
+		getoptions.Writer = &w
+	}
 	argsCopy := append([]string(nil), c.Args...)
 	rem, err := root.Parse(c.Args)
 	for i := range argsCopy {
@@ -561,6 +573,47 @@ func runRealInner(c *Case, out *RealOut) {
 			out.DIsParsing = errors.Is(derr, getoptions.ErrorParsing)
 		}
 		out.Calls = rp.calls
+		if c.Twice {
+			// the same arguments parsed and dispatched again on the same object reach the same function
+			// with the same kind of result (decided on the implementation alone)
+			first := append([]fnCall(nil), rp.calls...)
+			var w2 bytes.Buffer
+			getoptions.Writer = &w2
+			rem2, err2 := root.Parse(c.Args)
+			var derr2 error
+			if err2 == nil {
+				derr2 = root.Dispatch(ctx, rem2)
+			}
+			getoptions.Writer = &w
+			second := rp.calls[len(first):]
+			rp.calls = rp.calls[:len(first)]
+			ids := func(l []fnCall) string {
+				s := ""
+				for _, x := range l {
+					s += fmt.Sprintf("fn%d ", x.fn)
+				}
+				return s
+			}
+			kind := func(e error) string {
+				switch {
+				case e == nil:
+					return "nil"
+				case errors.Is(e, getoptions.ErrorHelpCalled):
+					return "help"
+				case errors.Is(e, getoptions.ErrorParsing):
+					return "parsing"
+				}
+				return "error"
+			}
+			switch {
+			case err2 != nil:
+				out.TwiceDiff = fmt.Sprintf("second Parse of the same arguments failed: %v", err2)
+			case ids(first) != ids(second):
+				out.TwiceDiff = fmt.Sprintf("first Dispatch called [%s], the second [%s]", ids(first), ids(second))
+			case kind(derr) != kind(derr2):
+				out.TwiceDiff = fmt.Sprintf("first Dispatch returned %v, the second %v", derr, derr2)
+			}
+		}
 	}
 	if c.Reparse && err == nil {
 		// Parsing an empty command line on the already parsed object changes no option: value, Called and
